@@ -635,7 +635,7 @@ fn arm_abort_guard(case: &Case) {
     ONCE.call_once(|| unsafe {
         signal(6, on_abort);
     });
-    let dir = std::path::Path::new(VERIF_ROOT).join("replays");
+    let dir = out_root().join("replays");
     let _ = std::fs::create_dir_all(&dir);
     let path = dir.join(format!("C11-inflight-{:016x}.json", case_hash(case)));
     let v = serde_json::json!({"property": "C11", "reason": "process aborted inside an FFI call (panic in an extern \"C\" function)", "case": case});
@@ -647,7 +647,7 @@ fn arm_abort_guard(case: &Case) {
 
 fn disarm_abort_guard(case: &Case) {
     INFLIGHT.with(|c| c.set((std::ptr::null(), 0)));
-    let path = std::path::Path::new(VERIF_ROOT).join("replays").join(format!("C11-inflight-{:016x}.json", case_hash(case)));
+    let path = out_root().join("replays").join(format!("C11-inflight-{:016x}.json", case_hash(case)));
     let _ = std::fs::remove_file(path);
 }
 
